@@ -200,7 +200,13 @@ def r3_lift_only_sole_term(ctx):
     b = F.body("quiver_compiler::simplify::strip_sequence")
     fl = Flow(b)
     fln = Flow(b, through_named=True)
-    chains = [l["i"] for l in b.locals if l.get("name") == "chains"]
+    from qvlib.paths import agg_sites as _aggs
+    chains = []
+    for _bi, _si, _s in _aggs(b, "ast::Sequence"):
+        for _o in _s["rv"]["ops"]:
+            _p = op_place(_o)
+            if _p:
+                chains.append(fl.canon_place(_p)[0])
     ext = [bi for bi, t in b.calls() if ((t.get("callee") or "").endswith("Extend::extend") or (t.get("callee") or "").endswith("Vec::extend")) and fl.canon_op(t["args"][0]) and fl.canon_op(t["args"][0])[0] in chains]
     ctx.floor(R, "lift splice sites in strip_sequence", len(ext), 1)
     # length tests on chain.terms dominating the splice
